@@ -356,45 +356,131 @@ impl<'a> Gen<'a> {
 	}
 	fn text_block(&mut self) {
 		self.feat("text-block");
-		let indent = *self.r.pick(&["  ", "\t", "    ", " ", "\t\t"]);
+		let indent = *self.r.pick(&["  ", "\t", "    ", " ", "\t\t", " \t", "\t "]);
+		if indent.contains('\t') {
+			self.feat("text-block-tab-indent");
+		}
 		let mut s = String::from("|||");
-		if self.r.chance(1, 4) {
+		if self.r.chance(1, 3) {
 			self.feat("text-block-chomp");
 			s.push('-');
 		}
 		s.push('\n');
-		let n = 1 + self.r.below(3);
+		let n = 1 + self.r.below(5);
 		for i in 0..n {
-			match self.r.below(6) {
-				0 if i > 0 => {
-					self.feat("text-block-blank-line");
+			// the first line fixes the block indent and must carry text
+			// (its whole leading white space IS the indent, so it cannot be "deeper")
+			let k = if i == 0 { *self.r.pick(&[5usize, 6, 9, 10, 11]) } else { self.r.below(14) };
+			match k {
+				0 => {
+					self.feat("text-block-empty-line");
 					s.push('\n');
-					s.push_str(indent);
-					s.push_str("after blank\n");
 				}
 				1 => {
+					// part of the string value: a line of blanks BEYOND the block indent
+					self.feat("text-block-ws-only-line-spaces");
+					s.push_str(indent);
+					s.push_str(*self.r.pick(&[" ", "  ", "    "]));
+					s.push('\n');
+				}
+				2 => {
+					self.feat("text-block-ws-only-line-tab");
+					s.push_str(indent);
+					s.push('\t');
+					s.push('\n');
+				}
+				3 => {
+					self.feat("text-block-ws-only-line-mixed");
+					s.push_str(indent);
+					s.push_str(*self.r.pick(&[" \t", "\t ", " \t ", "\t\t "]));
+					s.push('\n');
+				}
+				4 => {
+					// exactly the indent and nothing else: an empty line of the value
+					self.feat("text-block-indent-only-line");
+					s.push_str(indent);
+					s.push('\n');
+				}
+				5 => {
+					self.feat("text-block-trailing-ws");
+					s.push_str(indent);
+					s.push_str(*self.r.pick(&["tail  ", "tail\t", "tail \t ", "x:  "]));
+					s.push('\n');
+				}
+				6 => {
 					self.feat("text-block-inner-tab");
 					s.push_str(indent);
 					s.push_str("col\tumn\n");
 				}
-				2 => {
+				7 => {
+					self.feat("text-block-deeper-line");
 					s.push_str(indent);
-					s.push_str("  more indented\n");
+					s.push_str(*self.r.pick(&["  more indented\n", "        def f():\n", " one more\n"]));
 				}
-				3 => {
+				8 => {
 					s.push_str(indent);
 					s.push_str("\tinner leading tab\n");
 					self.feat("text-block-inner-tab");
 				}
 				_ => {
 					s.push_str(indent);
-					s.push_str(*self.r.pick(&["line one", "x: %d", "say \"hi\" 'there'", "tail  "]));
+					s.push_str(*self.r.pick(&["line one", "x: %d", "say \"hi\" 'there'", "key: value", "||| not the end", "# not a comment", "// neither"]));
 					s.push('\n');
 				}
 			}
 		}
-		s.push_str(*self.r.pick(&["|||", "  |||", "\t|||"]));
+		// the terminator line must not start with the block indent (it would be a content line)
+		let closers: Vec<&str> =
+			["", "  ", "\t", "      ", " "].into_iter().filter(|c| !c.starts_with(indent)).collect();
+		s.push_str(*self.r.pick(&closers));
+		s.push_str("|||");
 		self.p(&s);
+	}
+	/// a text block at nesting depth 1..4 inside objects / arrays / calls / locals / conditionals
+	fn nested_text_block(&mut self) {
+		self.feat("text-block-nested");
+		let depth = 1 + self.r.below(4);
+		let mut closers: Vec<Vec<&'static str>> = Vec::new();
+		for _ in 0..depth {
+			match self.r.below(7) {
+				0 => {
+					self.ps(&["{", "a", ":"]);
+					closers.push(vec!["}"]);
+				}
+				1 => {
+					self.ps(&["{", "k", ":", "1", ",", "'t x'", "::"]);
+					closers.push(vec![",", "}"]);
+				}
+				2 => {
+					self.p("[");
+					closers.push(vec!["]"]);
+				}
+				3 => {
+					self.ps(&["[", "0", ","]);
+					closers.push(vec![",", "1", ",", "]"]);
+				}
+				4 => {
+					self.ps(&["std", ".", "length", "("]);
+					closers.push(vec![")"]);
+				}
+				5 => {
+					self.ps(&["(", "function", "(", "s", ",", "t", "=", "1", ")", "s", ")", "(", "s", "="]);
+					closers.push(vec![")"]);
+				}
+				_ => {
+					self.ps(&["local", "tb", "="]);
+					closers.push(vec![";", "tb"]);
+				}
+			}
+		}
+		self.text_block();
+		if self.r.chance(1, 3) {
+			self.ps(&["+"]);
+			self.text_block();
+		}
+		while let Some(c) = closers.pop() {
+			self.ps(&c);
+		}
 	}
 	fn num(&mut self, d: usize) {
 		if d == 0 {
@@ -1085,8 +1171,19 @@ impl Run<'_> {
 	fn case(&mut self, src: &str, indent: u8, variant: &str, feats: &[&'static str], with_bin: bool) {
 		let in_ast = match parse_ir(src) {
 			Ok(a) => a,
-			Err(_) => {
+			Err(e) => {
+				if std::env::var_os("C19_SHOW_INVALID").is_some() && indent == 2 && (variant == "plain" || variant == "replay") {
+					eprintln!("INVALID {src:?}\n   {e}");
+				}
 				self.stat("gen-not-valid(skipped)");
+				if variant == "plain" && indent == 2 {
+					for f in feats.iter().filter(|f| f.starts_with("text-block-")) {
+						self.stat(&format!("not-valid-with:{f}"));
+					}
+				}
+				if variant == "seed" && indent == 2 {
+					self.stat(&format!("not-valid-seed:{src:?}"));
+				}
 				return;
 			}
 		};
@@ -1216,6 +1313,8 @@ const SEEDS: &[&str] = &[
 	"local y = ['a', 'b'], z = true; { ['k' + x]: x for x in y if z }",
 	"local y = ['a', 'b'], z = true; { ['k' + x]: x for x in y for w in y if z if w == x }",
 	"local y = [1, 2], z = true; [x for x in y if z]",
+	"local x = ['p']; { [k]: a, local a = 1 for k in x }",
+	"local x = ['p']; { local a = 1, [k]: a + b, local b = 2, for k in x if k != 'q' }",
 	"[1, 2 // c\n]",
 	"f(1, // c\n2)",
 	"{ a: 1 // c\n}",
@@ -1243,6 +1342,24 @@ const SEEDS: &[&str] = &[
 	"error 'x'",
 	"local i = import 'a.libsonnet', s = importstr \"b.txt\", b = importbin @'c.bin'; 1",
 	"|||\n  a\n\n  b\n|||",
+	"|||\n  a\n    \n  b\n|||",
+	"|||\n  a\n   \n  b\n|||",
+	"|||\n  a\n  \t\n  b\n|||",
+	"|||\n  a\n   \t \n  b\n|||",
+	"|||\n  a\n  \n  b\n|||",
+	"|||\n\ta\n\t\t\n\tb\n|||",
+	"|||\n\ta\n\t \n\tb\n|||",
+	"|||-\n  a\n    \n|||",
+	"|||-\n  a\n   \n\n|||",
+	"|||\n  a  \n  b\t\n  c \t \n|||",
+	"|||\n      deep first\n      same\n        deeper\n    |||",
+	"|||\n    first\n  shallower\n|||",
+	"|||\n  def f():\n      x = 1\n      \n      return x\n  \n  f()\n|||",
+	"{ a: |||\n    x\n      \n    y\n  |||, b: [|||\n\tp\n\t\t\n\tq\n|||, { c: std.length(|||\n   m\n    \n   n\n|||) }] }",
+	"{\n  a: {\n    b: [\n      |||\n        l1\n         \n\n        l2  \n      |||,\n    ],\n  },\n}",
+	"local t = |||-\n  a\n   \n  b\n|||; [t, std.length(t)]",
+	"(function(s) s)(|||\n  a\n  \t\n|||)",
+	"std.length(|||\n \tmixed indent\n \t \n \tend\n|||)",
 	"|||-\n\ta\tb\n\t\tc\n|||",
 	"|||\n  a\n   b\n|||",
 	"@\"a\"\"b\" + @'c''d' + \"e\\\"f\" + 'g\\'h'",
@@ -1333,7 +1450,8 @@ pub fn run(opts: &Opts) {
 	for i in 0..n_prog {
 		let depth = 1 + i % 4;
 		let mut g = Gen::new(&mut rng);
-		match i % 6 {
+		match i % 7 {
+			6 => g.nested_text_block(),
 			0 => g.num(depth),
 			1 => g.obj(depth),
 			2 => g.arr(depth),
